@@ -783,6 +783,41 @@ func judgeMatch(u0, prev, cur []rv, user []v1beta1.HttpRouteMatch, info *judgeIn
 		}
 		return newVio("C13/match-step/unexpected-rule/backends:"+describeRefs(c), "match step %s: rule is neither a user rule nor a generated canary rule (canary Service without stable Service): %s\nuser rules: %s", j(user), c.js, j(rulesOf(u0)))
 	}
+	// "the canary rule serves the matching requests, the original is kept": a rule whose backends all carry the explicit
+	// weight 0 serves nothing (Gateway API: such a rule answers 500). Judged only when the user wrote no zero weight on a
+	// stable reference themselves (a generated rule is a copy of the user's rule and inherits the user's weight).
+	userZero := false
+	for i := range u0 {
+		for _, ref := range u0[i].st {
+			if ref.Weight != nil && *ref.Weight == 0 {
+				userZero = true
+			}
+		}
+	}
+	if !userZero {
+		allZero := func(refs []gw.HTTPBackendRef) bool {
+			for _, ref := range refs {
+				if ref.Weight == nil || *ref.Weight != 0 {
+					return false
+				}
+			}
+			return len(refs) > 0
+		}
+		for i := range gens {
+			if allZero(gens[i].BackendRefs) {
+				return newVio("C13/match-step/canary-rule-serves-nothing", "match step %s: the generated canary rule carries weight 0 on every backend, matching requests are served by nobody: %s\nrules before: %s\nrules after: %s", j(user), j(gens[i]), j(rulesOf(prev)), j(rulesOf(cur)))
+			}
+		}
+		for i := range u0 {
+			u := &u0[i]
+			if !u.stable() {
+				continue
+			}
+			if c := findStableCounterpart(cur, u); c != nil && allZero(c.r.BackendRefs) {
+				return newVio("C13/match-step/user-rule-serves-nothing/"+classify(u.r), "match step %s: the user's rule is left with weight 0 on every backend: %s\nrules before: %s\nrules after: %s", j(user), c.js, j(rulesOf(prev)), j(rulesOf(cur)))
+			}
+		}
+	}
 	info.generated = len(gens)
 	sr := judgeScope(gens, stableUsers, user)
 	if sr.over != "" {
